@@ -217,43 +217,56 @@ func (b *Builder) AddMap(f func(int32) int32) { b.maps = append(b.maps, f) }
 
 func (b *Builder) Build() *Alphabet {
 	cls := make([]uint32, NSym)
-	n := uint32(1)
-	refine := func(bit func(sym int32) uint32) {
-		type key struct{ old, bit uint32 }
-		m := map[key]uint32{}
-		var next uint32
-		for s := int32(0); s < NSym; s++ {
-			k := key{cls[s], bit(s)}
-			id, ok := m[k]
-			if !ok {
-				id = next
-				next++
-				m[k] = id
+	// elementary intervals from the range boundaries of all sets
+	bounds := []int32{0, NSym}
+	for _, set := range b.sets {
+		for i := 0; i+1 < len(set.R); i += 2 {
+			bounds = append(bounds, set.R[i], set.R[i+1]+1)
+		}
+	}
+	sort.Slice(bounds, func(i, j int) bool { return bounds[i] < bounds[j] })
+	sigIndex := map[string]uint32{}
+	n := uint32(0)
+	sig := make([]byte, (len(b.sets)+7)/8)
+	for i := 0; i+1 < len(bounds); i++ {
+		lo, hi := bounds[i], bounds[i+1]
+		if lo == hi || lo >= NSym {
+			continue
+		}
+		for k := range sig {
+			sig[k] = 0
+		}
+		for k, set := range b.sets {
+			if set.Contains(lo) {
+				sig[k/8] |= 1 << (k % 8)
 			}
+		}
+		id, ok := sigIndex[string(sig)]
+		if !ok {
+			id = n
+			n++
+			sigIndex[string(sig)] = id
+		}
+		for s := lo; s < hi && s < NSym; s++ {
 			cls[s] = id
 		}
-		n = next
-	}
-	mark := make([]bool, NSym)
-	for _, set := range b.sets {
-		for i := range mark {
-			mark[i] = false
-		}
-		for i := 0; i+1 < len(set.R); i += 2 {
-			for s := set.R[i]; s <= set.R[i+1]; s++ {
-				mark[s] = true
-			}
-		}
-		refine(func(sym int32) uint32 {
-			if mark[sym] {
-				return 1
-			}
-			return 0
-		})
 	}
 	for _, f := range b.maps {
 		old := append([]uint32(nil), cls...)
-		refine(func(sym int32) uint32 { return old[f(sym)] })
+		on := n
+		table := make([]int32, int(on)*int(on))
+		for i := range table {
+			table[i] = -1
+		}
+		n = 0
+		for s := int32(0); s < NSym; s++ {
+			k := int(old[s])*int(on) + int(old[f(s)])
+			if table[k] < 0 {
+				table[k] = int32(n)
+				n++
+			}
+			cls[s] = uint32(table[k])
+		}
 	}
 	if n > 60000 {
 		panic("relang: too many alphabet classes")
